@@ -138,7 +138,13 @@ def _canonicalise(tree: ast.AST) -> None:
     for n in ast.walk(tree):
         if isinstance(n, ast.Compare) and len(n.ops) == 1 and isinstance(n.ops[0], (ast.Eq, ast.NotEq)) and _const_rank(n.left) > _const_rank(n.comparators[0]):
             n.left, n.comparators = n.comparators[0], [n.left]
-    # 4. single-use temporaries in front of a return
+    # 4. single-use temporaries: `t = E; return t` -> `return E`; and `t = PURE; <simple statement using t once>` -> inlined
+    _PURE = (ast.Name, ast.Constant, ast.Attribute, ast.BinOp, ast.UnaryOp, ast.Compare, ast.BoolOp, ast.JoinedStr, ast.FormattedValue, ast.Tuple,
+             ast.Load, ast.operator, ast.unaryop, ast.cmpop, ast.boolop, ast.expr_context)
+
+    def _pure(e: ast.AST) -> bool:
+        return all(isinstance(x, _PURE) for x in ast.walk(e))
+
     for fn in [x for x in ast.walk(tree) if isinstance(x, (ast.FunctionDef, ast.AsyncFunctionDef))]:
         stores: Dict[str, int] = {}
         loads: Dict[str, int] = {}
@@ -149,6 +155,8 @@ def _canonicalise(tree: ast.AST) -> None:
             elif isinstance(x, (ast.Global, ast.Nonlocal)):
                 for nm in x.names:
                     stores[nm] = stores.get(nm, 0) + 2
+            elif isinstance(x, ast.arg):
+                stores[x.arg] = stores.get(x.arg, 0) + 1
         for par in ast.walk(fn):
             for fld in ("body", "orelse", "finalbody"):
                 blk = getattr(par, fld, None)
@@ -157,11 +165,24 @@ def _canonicalise(tree: ast.AST) -> None:
                 i = 1
                 while i < len(blk):
                     a, r = blk[i - 1], blk[i]
-                    if isinstance(r, ast.Return) and isinstance(r.value, ast.Name) and isinstance(a, ast.Assign) and len(a.targets) == 1 and isinstance(a.targets[0], ast.Name) \
-                            and a.targets[0].id == r.value.id and stores.get(r.value.id) == 1 and loads.get(r.value.id) == 1:
-                        r.value = a.value
-                        del blk[i - 1]
-                        continue
+                    if isinstance(a, ast.Assign) and len(a.targets) == 1 and isinstance(a.targets[0], ast.Name) and stores.get(a.targets[0].id) == 1 and loads.get(a.targets[0].id) == 1:
+                        t = a.targets[0].id
+                        if isinstance(r, ast.Return) and isinstance(r.value, ast.Name) and r.value.id == t:
+                            r.value = a.value
+                            del blk[i - 1]
+                            continue
+                        if _pure(a.value) and isinstance(r, (ast.Assign, ast.Expr, ast.Return, ast.AugAssign)) and not t.isupper():
+                            uses = [(p_, f_, k_) for p_ in ast.walk(r) for f_, v_ in ast.iter_fields(p_) for k_, c_ in (enumerate(v_) if isinstance(v_, list) else [(None, v_)])
+                                    if isinstance(c_, ast.Name) and c_.id == t and isinstance(c_.ctx, ast.Load)]
+                            # the value must not depend on something the using statement assigns first (it does not: a precedes r)
+                            if len(uses) == 1:
+                                p_, f_, k_ = uses[0]
+                                if k_ is None:
+                                    setattr(p_, f_, a.value)
+                                else:
+                                    getattr(p_, f_)[k_] = a.value
+                                del blk[i - 1]
+                                continue
                     i += 1
 
 
